@@ -100,13 +100,15 @@ PROPERTIES = {
         explanation="operator identities proved as equalities of normal forms in a typed non-commutative *-algebra",
     ),
     "C04": dict(
-        engines="N",
+        engines="NA",
         claim="orth and orth_unocc (real code, real decorators) on symbolic matrices of symbolic size: Y^H O Y = 1, idempotence, span "
               "preservation (Y sqrtm(U) = W), D^H O D = 1 and D^H O Y_occ = 0, for every k-point and spin channel. Density / kinetic-energy-"
-              "density clauses (non-negativity, integrals) are not covered by this check.",
+              "density clauses: the real get_n_spin / get_n_total / get_n_single / get_tau / get_Ekin traced with symbolic complex coefficients, "
+              "fillings, weights, G, k on an exact 4-point transform (3 plane waves, 2 k-points, 2 spins, 2 states): positive-weight sums of "
+              "squares, total = sum of spin = sum of single-orbital densities, integral = sum_k wk sum f (Y^H O Y)_ii, integral of tau = get_Ekin.",
         note="sqrtm / inv are assumed contracts (principal root of a Hermitian positive matrix); conditioning in floating point is out of scope",
         explanation="normal-form equality in a typed non-commutative *-algebra with the sqrtm/inv contracts as oriented rewrite rules",
-        modules=["contracts.c04_c05_c01_c11"],
+        modules=["contracts.c04_c05_c01_c11", "contracts.c04_density"],
         level="proof",
         trusted_base=BASE_TRUST + ["in-house non-commutative normaliser (engine N)"],
         assumptions=["assumed contracts of sqrtm / inv / fft (listed per obligation)", "floats as exact complex numbers",
